@@ -233,7 +233,7 @@ def _ind(s, n=1):
 
 C16_ATOMS = ["effect()", "return", "return effect()", "raise E()", "break", "continue", "pass", "assert cond()",
              "assert False", "assert True", "assert 7000 > 7001", "x = effect()", "assert 0, effect()"]
-C16_TESTS = ["cond()", "True", "False", "7000 > 7001", "1 > 2", "not cond()", "7000"]
+C16_TESTS = ["cond()", "True", "False", "7000 > 7001", "p > 0", "1 > 2", "not cond()", "7000"]
 C16_ITERS = ["seq()", "(1, 2)", "()", "range(7002)", "[]", "[effect()]"]
 
 
@@ -251,7 +251,7 @@ def _c16_compounds(bodies, tests, iters, with_else=True):
         eb = [b for b in bodies if b in ("effect()", "return", "raise E()", "break", "continue", "pass",
                                          "effect()\nreturn", "effect()\ncontinue")]
         for b1, b2 in itertools.product(eb, repeat=2):
-            for t in tests[:4]:
+            for t in tests[:5]:
                 yield "if %s:\n%s\nelse:\n%s" % (t, _ind(b1), _ind(b2))
             yield "while cond():\n%s\nelse:\n%s" % (_ind(b1), _ind(b2))
             yield "while True:\n%s\nelse:\n%s" % (_ind(b1), _ind(b2))
@@ -296,8 +296,8 @@ def c16_shapes(tier="quick"):
 
 def c16_program(shape, tape=8):
     """The shape inside a loop inside a function, followed by an observable statement."""
-    body = "def main():\n    for _k in (1, 2):\n%s\n        print(\"fall\", _k)\n    print(\"after\")\n    return 5\n" % _ind(shape, 2)
-    return prelude(tape) + C16_PRELUDE_EXTRA + body + "\n\nprint(main())\n"
+    body = "def main(p):\n    for _k in (1, 2):\n%s\n        print(\"fall\", _k)\n    print(\"after\")\n    return 5\n" % _ind(shape, 2)
+    return prelude(tape) + C16_PRELUDE_EXTRA + body + "\n\nprint(main(inp()))\n"
 
 
 def c16_skeletons(tier="quick"):
